@@ -70,7 +70,17 @@ func New(logger zerolog.Logger, proxies ...string) func(http.Handler) http.Handl
 				ipHolders = append(ipHolders, ipNet)
 			}
 		} else {
-			ipHolders = append(ipHolders, simpleIP(net.ParseIP(ipAddr)))
+			// an entry, which is not an IP address, must not be kept: net.ParseIP returns nil for it, and a nil IP
+			// is equal to the nil IP resulting from a peer address, which cannot be parsed (e.g. an IPv6 address
+			// with a zone), making that peer a trusted one
+			ip := net.ParseIP(ipAddr)
+			if ip == nil {
+				logger.Warn().Msgf("Trusted proxies IP %q could not be parsed", ipAddr)
+
+				continue
+			}
+
+			ipHolders = append(ipHolders, simpleIP(ip))
 		}
 	}
 
